@@ -12,4 +12,4 @@ Separate Extraction
   Order.inputs_ordered Order.coupling_ordered Order.outputs Order.stream_assignment
   QcInst.qc_make QcInst.qc_num QcInst.qc_den
   QcRun.q_refine1 QcRun.q_basis1 QcRun.q_dbasis1 QcRun.q_tpredict QcRun.q_tpredict_abs QcRun.q_tgrad
-  QcRun.q_misc_predict QcRun.q_misc_grad QcRun.q_mk_grid.
+  QcRun.q_misc_predict QcRun.q_misc_grad QcRun.q_mk_grid QcRun.q_trace_ok.
